@@ -2,6 +2,7 @@
 C05 - allocated resource ranges are exact, in range, disjoint and unreserved.
 -/
 import RigModel.Model.C05
+import RigModel.Lemmas.C05
 set_option linter.unusedSimpArgs false
 set_option linter.unusedVariables false
 
@@ -17,5 +18,45 @@ theorem overlaps_iff_common (a b : Slice) :
     refine ⟨max a.start b.start, ?_, ?_, ?_, ?_⟩ <;> omega
   · intro ⟨i, h1, h2, h3, h4⟩
     omega
+
+/-- **Soundness.** Whatever the machine, placement, vertex order, requests, alignments
+and reservation lists: an allocation returned by the allocator satisfies the property
+(`Valid`): exactly the placed vertices; every request answered by one range of the exact
+size, inside `[0, capacity of the chip]`, on the alignment, overlapping no global or
+local reservation; ranges of different vertices on one chip disjoint. -/
+theorem alloc_sound (inp : Input) (out : List (Vertex × List Entry)) (wf : WellFormed inp)
+    (h : allocate inp = .ok out) : Valid inp (strip out) :=
+  valid_of_chipsOk wf
+    (allocChips_ok (alignment_pos wf.alignPos) wf.demandNonneg _ _ (nodup_dedup _) h)
+
+/-- the four clauses of `Valid`, spelled out for one answered request -/
+theorem alloc_sound_range (inp : Input) (out : List (Vertex × List Entry)) (wf : WellFormed inp)
+    (h : allocate inp = .ok out) (v : Vertex) (xy : Chip) (rs : List (Res × Int)) (res : Res) (d : Int)
+    (hp : (v, xy) ∈ inp.placements) (hq : (v, rs) ∈ inp.vr) (hrd : (res, d) ∈ rs) :
+    ∃ s, (v, res, s) ∈ flat (strip out) ∧ s.stop - s.start = d ∧ 0 ≤ s.start ∧
+      (∃ c, capacity inp.machine xy res = some c ∧ s.stop ≤ c) ∧
+      s.start % alignment inp.constraints res = 0 ∧
+      ∀ r ∈ reserved inp.constraints xy res, ¬ ∃ i : Int, s.start ≤ i ∧ i < s.stop ∧ r.start ≤ i ∧ i < r.stop := by
+  obtain ⟨t, ht, h1, h2, hg⟩ := (alloc_sound inp out wf h).2.1 (v, xy) hp (v, rs) hq rfl (res, d) hrd
+  obtain ⟨tv, tr, ts⟩ := t
+  simp only at h1 h2 hg
+  subst h1; subst h2
+  refine ⟨ts, ht, hg.1, hg.2.1, hg.2.2.1, hg.2.2.2.1, ?_⟩
+  intro r hr hex
+  exact hg.2.2.2.2 r hr ((overlaps_iff_common _ _).2 hex)
+
+/-- **Only failure.** On a well-formed input of the documented domain the allocator
+returns an allocation or raises `InsufficientResourceError` for a resource on a chip that
+holds a vertex - never another exception, and the proposal loop never runs out of fuel
+(i.e. the `while` loop terminates). -/
+theorem alloc_only_failure (inp : Input) (wf : WellFormed inp) (dom : InDomain inp) :
+    (∃ out, allocate inp = .ok out) ∨
+    ∃ res, ∃ p ∈ inp.placements, allocate inp = .error (.insufficient res p.2) := by
+  rcases allocChips_total (alignment_pos wf.alignPos) (chipOrder inp) (reqOk_of_domain wf dom) with
+    h | ⟨res, xy, hxy, h⟩
+  · exact Or.inl h
+  · right
+    obtain ⟨p, hp, rfl⟩ := List.mem_map.1 ((mem_dedup _ _).1 hxy)
+    exact ⟨res, p, hp, h⟩
 
 end Rig.C05
